@@ -157,3 +157,483 @@ Section Calls2.
     rewrite R_bind, R_call_value. apply rbind_ext; intros b. destruct (truthy b); reflexivity.
   Qed.
 End Calls2.
+
+Lemma rbind_cong {A B} (r r' : res A) (f g : A -> res B) :
+  r = r' -> (forall a, f a = g a) -> rbind r f = rbind r' g.
+Proof. intros -> H. now apply rbind_ext. Qed.
+
+Lemma rcatch_cong {A} (r r' : res A) (h k : cause -> bool -> res A) :
+  r = r' -> (forall c ee, h c ee = k c ee) -> rcatch r h = rcatch r' k.
+Proof. intros -> H. now apply rcatch_ext. Qed.
+
+Lemma Popt_impl (P Q : expr -> Prop) x : (forall e, P e -> Q e) -> Popt P x -> Popt Q x.
+Proof. destruct x; cbn; auto. Qed.
+
+(** ** The refinement, constructor by constructor *)
+Section Refinement.
+  Variable u : N -> list value -> cres.
+  Variable fuel : nat.
+  Notation evalR := (eval unit nc_find nc_store cfg_nc u fuel (fun _ _ => true)).
+  Notation validR := (validate unit nc_find nc_store cfg_nc u fuel (fun _ _ => true)).
+  Notation sem := (Spec.sem u fuel).
+  Notation semv := (Spec.sem_valid u fuel).
+
+  Ltac unf := cbn [eval validate Spec.sem Spec.sem_valid]; fold evalR; fold validR; fold sem; fold semv.
+
+  Definition refines (e : expr) : Prop :=
+    (forall o, R (evalR e o) = sem e o) /\ (forall o, R (validR e o) = semv e o).
+
+  Lemma sem_is_wrapped e o : as_ee (sem e o) = sem e o.
+  Proof. destruct e; apply as_ee_idem. Qed.
+
+  Lemma sem_err_ee e o c ee : sem e o = Err c ee -> ee = true.
+  Proof. intros H. rewrite <- sem_is_wrapped in H. destruct (sem e o); cbn in H; now inversion H. Qed.
+
+  Lemma R_option_eval (ev : expr -> M unit value) (sv : expr -> res value) k dflt dom o :
+    Popt (fun e => R (ev e) = sv e) dflt -> Popt (fun e => R (ev e) = sv e) dom ->
+    R (option_eval unit u fuel ev k dflt dom o) = soption u fuel sv k dflt dom o.
+  Proof.
+    intros Hd Hm. unfold option_eval, soption. rewrite R_bind, R_rd. cbn [rbind].
+    rewrite R_bind. apply rbind_cong.
+    - destruct (lookup k (JObj o)) as [raw| |].
+      + rewrite R_bind, R_emit_reads. cbn [rbind]. rewrite R_bind, R_of_rres.
+        apply rbind_ext; intros j. reflexivity.
+      + destruct dflt as [d|]; [exact Hd|reflexivity].
+      + reflexivity.
+    - intros v. destruct dom as [de|]; [|reflexivity].
+      rewrite R_bind. cbn in Hm. rewrite Hm. apply rbind_ext; intros d.
+      rewrite R_bind, R_in_domain. apply rbind_ext; intros _. reflexivity.
+  Qed.
+
+  Lemma ref_value v : refines (EValue v).
+  Proof. split; intros o; reflexivity. Qed.
+
+  Lemma ref_option k dflt dom : Popt refines dflt -> Popt refines dom -> refines (EOption k dflt dom).
+  Proof.
+    intros Hd Hm.
+    assert (Hd' : forall o, Popt (fun e => R (evalR e o) = sem e o) dflt)
+      by (intros o; eapply Popt_impl; [|exact Hd]; intros e He; apply He).
+    assert (Hm' : forall o, Popt (fun e => R (evalR e o) = sem e o) dom)
+      by (intros o; eapply Popt_impl; [|exact Hm]; intros e He; apply He).
+    split; intros o; unf.
+    - rewrite R_wrap. f_equal. apply R_option_eval; auto.
+    - rewrite R_bind, R_rd. cbn [rbind]. destruct (lookup k (JObj o)) as [raw| |].
+      + rewrite R_bind, R_wrap. apply rbind_cong; [|reflexivity].
+        f_equal. apply R_option_eval; auto.
+      + destruct dflt as [d|]; [apply Hd|reflexivity].
+      + reflexivity.
+  Qed.
+
+  Lemma ref_apply src fn : refines src -> refines fn -> refines (EApply src fn).
+  Proof.
+    intros [Hs Hsv] [Hf Hfv]. split; intros o; unf.
+    - rewrite R_wrap. f_equal. rewrite R_bind, Hs. apply rbind_ext; intros x.
+      rewrite R_bind, Hf. apply rbind_ext; intros f. apply R_call_value.
+    - rewrite R_bind, Hsv. apply rbind_ext; intros _. apply Hfv.
+  Qed.
+
+  Lemma tbl_eval (tbl : list (value * expr)) o :
+    Forall (fun ve => refines (snd ve)) tbl ->
+    Forall (fun ve => R (evalR (snd ve) o) = sem (snd ve) o) tbl.
+  Proof. apply Forall_impl. intros a H. apply H. Qed.
+  Lemma tbl_valid (tbl : list (value * expr)) o :
+    Forall (fun ve => refines (snd ve)) tbl ->
+    Forall (fun ve => R (validR (snd ve) o) = semv (snd ve) o) tbl.
+  Proof. apply Forall_impl. intros a H. apply H. Qed.
+
+  Lemma ref_bind src tbl dflt :
+    refines src -> Forall (fun ve => refines (snd ve)) tbl -> Popt refines dflt -> refines (EBind src tbl dflt).
+  Proof.
+    intros [Hs Hsv] Ht Hd. split; intros o; unf.
+    - rewrite R_wrap. f_equal. rewrite R_bind, Hs. apply rbind_ext; intros x.
+      apply R_pick; [now apply tbl_eval|]. destruct dflt as [d|]; [apply Hd|reflexivity].
+    - rewrite R_bind, Hsv. apply rbind_ext; intros _.
+      rewrite R_bind, Hs. apply rbind_ext; intros x.
+      apply R_pick; [now apply tbl_valid|]. destruct dflt as [d|]; [apply Hd|reflexivity].
+  Qed.
+
+  Lemma R_dispatch (m : M unit value) (hd : bool) :
+    R (dispatch_value unit m hd) =
+      match R m with
+      | Ok k => Ok (Some k)
+      | Err c ee => if is_unmodelled c then Err c ee else if ee && hd then Ok None else Err c ee
+      end.
+  Proof.
+    unfold dispatch_value. rewrite R_catch, R_bind.
+    destruct (R m) as [k|c ee]; [reflexivity|].
+    destruct c; cbn [rbind rcatch is_unmodelled]; try reflexivity; destruct (ee && hd); reflexivity.
+  Qed.
+
+  Lemma ref_switch disp tbl dflt :
+    refines disp -> Forall (fun ve => refines (snd ve)) tbl -> Popt refines dflt -> refines (ESwitch disp tbl dflt).
+  Proof.
+    intros [Hs Hsv] Ht Hd. split; intros o; unf.
+    - rewrite R_wrap. f_equal. rewrite R_bind, R_dispatch, Hs.
+      destruct (sem disp o) as [k|c ee] eqn:E; cbn [rbind].
+      + destruct (hashable k); cbn [negb]; [|reflexivity].
+        apply R_pick; [now apply tbl_eval|]. destruct dflt as [d|]; [apply Hd|reflexivity].
+      + apply sem_err_ee in E. subst ee. destruct (is_unmodelled c) eqn:Eu.
+        * destruct dflt; reflexivity.
+        * destruct dflt as [d|]; cbn [is_some andb rbind]; [apply Hd|reflexivity].
+    - rewrite R_bind, R_dispatch, Hs.
+      destruct (sem disp o) as [k|c ee] eqn:E; cbn [rbind].
+      + destruct (hashable k); cbn [negb]; [|reflexivity].
+        apply R_pick; [now apply tbl_valid|]. destruct dflt as [d|]; [apply Hd|reflexivity].
+      + apply sem_err_ee in E. subst ee. destruct (is_unmodelled c) eqn:Eu.
+        * destruct dflt; reflexivity.
+        * destruct dflt as [d|]; cbn [is_some andb rbind]; [apply Hd|reflexivity].
+  Qed.
+
+  Lemma ref_case disp cases dflt :
+    refines disp -> Forall (fun cr => refines (fst cr) /\ refines (snd cr)) cases -> Popt refines dflt ->
+    refines (ECase disp cases dflt).
+  Proof.
+    intros [Hs Hsv] Hc Hd. split; intros o; unf.
+    - rewrite R_wrap. f_equal. rewrite R_bind, Hs. apply rbind_ext; intros x.
+      induction Hc as [|[c r] cs [[Hce _] [Hre _]] _ IH]; unf.
+      + destruct dflt as [d|]; [apply Hd|reflexivity].
+      + cbn [fst snd] in *. rewrite R_bind, Hce. apply rbind_ext; intros p.
+        rewrite R_bind, R_call_value. apply rbind_ext; intros b.
+        destruct (truthy b); [apply Hre|exact IH].
+    - rewrite R_bind, Hsv. apply rbind_ext; intros _.
+      rewrite R_bind, Hs. apply rbind_ext; intros x.
+      induction Hc as [|[c r] cs [[Hce _] [_ Hrv]] _ IH]; unf.
+      + destruct dflt as [d|]; [apply Hd|reflexivity].
+      + cbn [fst snd] in *. rewrite R_bind, Hce. apply rbind_ext; intros p.
+        rewrite R_bind, R_call_value. apply rbind_ext; intros b.
+        destruct (truthy b); [apply Hrv|exact IH].
+  Qed.
+
+  Lemma ref_coalesce ms : Forall refines ms -> refines (ECoalesce ms).
+  Proof.
+    intros H. split; intros o; unf.
+    - rewrite R_wrap. f_equal. generalize (@None (cause * bool)) as last.
+      induction H as [|m ms [He Hv] _ IH]; intros last; unf.
+      + destruct last as [[c ee]|]; reflexivity.
+      + rewrite R_catch, R_bind, Hv. apply rcatch_cong.
+        * apply rbind_ext; intros _. apply He.
+        * intros c ee. destruct ee; [apply IH|reflexivity].
+    - generalize (@None (cause * bool)) as last.
+      induction H as [|m ms [He Hv] _ IH]; intros last; unf.
+      + destruct last as [[c ee]|]; reflexivity.
+      + rewrite R_catch, R_bind, Hv. apply rcatch_cong.
+        * reflexivity.
+        * intros c ee. destruct ee; [apply IH|reflexivity].
+  Qed.
+
+  Lemma ref_iter es : Forall refines es -> refines (EIter es).
+  Proof.
+    intros H. split; intros o; unf.
+    - rewrite R_wrap. f_equal. rewrite R_bind. apply rbind_cong; [|reflexivity].
+      induction H as [|x es [He _] _ IH]; unf; [reflexivity|].
+      rewrite R_catch, R_bind, He. apply rcatch_cong; [|reflexivity].
+      apply rbind_ext; intros v. destruct (is_some (deep_err v)); [reflexivity|].
+      rewrite R_bind, IH. apply rbind_ext; intros vs. reflexivity.
+    - apply R_iterM. eapply Forall_impl; [|exact H]. intros a Ha. apply Ha.
+  Qed.
+
+  Lemma R_row_options row : R (row_options unit row) = srow_options row.
+  Proof.
+    unfold row_options, srow_options. destruct (option_set _ []) as [os|]; [|reflexivity].
+    destruct (Nat.eqb (length os) 0 && negb (Nat.eqb (length row) 0)); reflexivity.
+  Qed.
+
+  Lemma R_map_rows (ev : expr -> M unit value) (sv : expr -> res value) (its : list (key * expr)) :
+    Forall (fun ke => R (ev (snd ke)) = sv (snd ke)) its ->
+    R (map_rows unit ev its) = smap_rows sv its.
+  Proof.
+    intros H. unfold map_rows, smap_rows. rewrite R_bind. apply rbind_cong; [|reflexivity].
+    apply R_mapM. eapply Forall_impl; [|exact H]. intros ke Hke. cbn beta.
+    rewrite R_bind, Hke. apply rbind_ext; intros v. apply R_force_elems.
+  Qed.
+
+  Lemma its_eval (its : list (key * expr)) o :
+    Forall (fun ke => refines (snd ke)) its ->
+    Forall (fun ke => R (evalR (snd ke) o) = sem (snd ke) o) its.
+  Proof. apply Forall_impl. intros a H. apply H. Qed.
+
+  Lemma ref_map e its : refines e -> Forall (fun ke => refines (snd ke)) its -> refines (EMap e its).
+  Proof.
+    intros [He Hv] Hi. split; intros o; unf.
+    - rewrite R_wrap. f_equal. rewrite R_bind, (R_map_rows _ (fun x => sem x o)) by now apply its_eval.
+      apply rbind_ext; intros rows. rewrite R_bind. apply rbind_cong.
+      + apply R_mapM. apply Forall_all. intros row.
+        rewrite R_bind, R_row_options. apply rbind_ext; intros os. reflexivity.
+      + intros rowsos. rewrite R_bind. apply rbind_cong; [|reflexivity].
+        induction rowsos as [|[row os] rowsos IH]; unf; [reflexivity|].
+        rewrite R_catch, R_bind. unfold with_opts at 1. rewrite He. apply rcatch_cong; [|reflexivity].
+        apply rbind_ext; intros r. destruct (is_some (deep_err r)); [reflexivity|].
+        rewrite R_bind, IH. apply rbind_ext; intros rs. reflexivity.
+    - rewrite R_bind, (R_map_rows _ (fun x => sem x o)) by now apply its_eval.
+      apply rbind_ext; intros rows. apply R_iterM. apply Forall_all. intros row.
+      rewrite R_bind, R_row_options. apply rbind_ext; intros os. apply Hv.
+  Qed.
+
+  Lemma ref_with force p e : refines e -> refines (EWith force p e).
+  Proof.
+    intros [He Hv]. split; intros o; unf.
+    - rewrite R_wrap. f_equal. apply He.
+    - apply Hv.
+  Qed.
+
+  Lemma ref_cached c e : refines e -> refines (ECached c e).
+  Proof.
+    intros [He Hv]. split; intros o; unf.
+    - rewrite R_wrap. f_equal. destruct c as [cid|]; [|apply He].
+      change (cache_ctx_off cfg_nc) with true. cbn [orb]. apply He.
+    - destruct c as [cid|]; [|apply Hv].
+      change (cache_ctx_off cfg_nc) with true. cbn [orb]. apply Hv.
+  Qed.
+
+  Lemma all_eval (es : list expr) o :
+    Forall refines es -> Forall (fun e => R (evalR e o) = sem e o) es.
+  Proof. apply Forall_impl. intros a H. apply H. Qed.
+  Lemma all_valid (es : list expr) o :
+    Forall refines es -> Forall (fun e => R (validR e o) = semv e o) es.
+  Proof. apply Forall_impl. intros a H. apply H. Qed.
+
+  Lemma ref_call partial f args kwargs :
+    refines f -> Forall refines args -> Forall refines kwargs -> refines (ECall partial f args kwargs).
+  Proof.
+    intros [Hf Hfv] Ha Hk. split; intros o; unf.
+    - rewrite R_wrap. f_equal. rewrite R_bind, Hf. apply rbind_ext; intros fv.
+      rewrite R_bind, (R_mapM _ (fun x => sem x o)) by now apply all_eval.
+      apply rbind_ext; intros av.
+      rewrite R_bind, (R_mapM _ (fun x => sem x o)) by now apply all_eval.
+      apply rbind_ext; intros kv.
+      destruct partial; [destruct fv; reflexivity|apply R_call_value_n].
+    - rewrite R_bind, Hfv. apply rbind_ext; intros _.
+      rewrite R_bind, (R_iterM _ (fun x => semv x o)) by now apply all_valid.
+      apply rbind_ext; intros _. apply R_iterM. now apply all_valid.
+  Qed.
+
+  Lemma R_template_options (ev : expr -> M unit value) (sv : expr -> res value) (ps : list (N * expr)) o :
+    Forall (fun pe => R (ev (snd pe)) = sv (snd pe)) ps ->
+    R (template_options unit ev ps o) = stemplate_options sv ps o.
+  Proof.
+    intros H. unfold template_options, stemplate_options. rewrite R_bind. apply rbind_cong.
+    - apply R_mapM. eapply Forall_impl; [|exact H]. intros pe Hpe. cbn beta.
+      rewrite R_bind, Hpe. apply rbind_ext; intros v. reflexivity.
+    - intros pvs. destruct (option_set _ []) as [pd|]; [|reflexivity].
+      destruct (negb (Nat.eqb (length pd) (length ps))); reflexivity.
+  Qed.
+
+  Lemma ref_template s ps : Forall (fun pe => refines (snd pe)) ps -> refines (ETemplate s ps).
+  Proof.
+    intros H. split; intros o; unf.
+    - rewrite R_wrap. f_equal.
+      rewrite R_bind, (R_template_options _ (fun x => sem x o))
+        by (eapply Forall_impl; [|exact H]; intros a Ha; apply Ha).
+      apply rbind_ext; intros o'. rewrite R_bind, R_emit_reads. cbn [rbind].
+      rewrite R_bind, R_of_rres. apply rbind_ext; intros j. destruct (to_str j); reflexivity.
+    - rewrite R_bind. apply rbind_cong.
+      + apply R_iterM. eapply Forall_impl; [|exact H]. intros a Ha. apply Ha.
+      + intros _. apply R_iterM. apply Forall_all. intros k.
+        rewrite R_bind, R_rd. cbn [rbind]. destruct (lookup k (JObj o)) as [raw| |]; try reflexivity.
+        rewrite R_bind, R_emit_reads. cbn [rbind]. rewrite R_bind, R_wrap, R_of_rres. reflexivity.
+  Qed.
+
+  Lemma ref_comp e effects : refines e -> Forall refines effects -> refines (EComp e effects).
+  Proof.
+    intros [He Hv] Hf. split; intros o; unf.
+    - rewrite R_wrap. f_equal. rewrite R_bind, He. apply rbind_ext; intros v.
+      rewrite R_bind. apply rbind_cong; [|reflexivity].
+      destruct (effects_opt_off o); [reflexivity|].
+      apply R_iterM. eapply Forall_impl; [|exact Hf]. intros eff [Hfe _]. cbn beta.
+      rewrite R_bind, Hfe. apply rbind_ext; intros f.
+      rewrite R_bind, R_call_value. reflexivity.
+    - rewrite R_bind, Hv. apply rbind_ext; intros _.
+      destruct (effects_opt_off o); [reflexivity|]. apply R_iterM. now apply all_valid.
+  Qed.
+
+  Lemma ref_logged e : refines e -> refines (ELogged e).
+  Proof.
+    intros [He Hv]. split; intros o; unf.
+    - rewrite R_wrap. f_equal. rewrite R_bind, R_emit. cbn [rbind]. rewrite R_bind.
+      destruct (log_ctx_off cfg_nc || logging_opt_off o); rewrite ?R_ret, ?R_emit; cbn [rbind]; apply He.
+    - apply Hv.
+  Qed.
+
+  Lemma ref_pipe steps : Forall refines steps -> refines (EPipe steps).
+  Proof.
+    intros H. split; intros o; unf.
+    - rewrite R_wrap. f_equal. rewrite R_bind, (R_mapM _ (fun x => sem x o)) by now apply all_eval.
+      reflexivity.
+    - apply R_iterM. now apply all_valid.
+  Qed.
+
+  Lemma R_all_options o : R (all_options_eval unit fuel o) = sall_options fuel o.
+  Proof.
+    unfold all_options_eval, sall_options. rewrite R_bind, R_emit. cbn [rbind].
+    rewrite R_bind, R_of_rres. reflexivity.
+  Qed.
+
+  Lemma ref_alloptions : refines EAllOptions.
+  Proof.
+    split; intros o; unf.
+    - rewrite R_wrap, R_all_options. reflexivity.
+    - rewrite R_bind, R_wrap, R_all_options. reflexivity.
+  Qed.
+
+  (** The refinement theorem: for EVERY expression *)
+  Theorem eval_refines_spec e : refines e.
+  Proof.
+    induction e using expr_ind'.
+    - apply ref_value.
+    - now apply ref_option.
+    - now apply ref_apply.
+    - now apply ref_bind.
+    - now apply ref_switch.
+    - now apply ref_case.
+    - now apply ref_coalesce.
+    - now apply ref_iter.
+    - now apply ref_map.
+    - now apply ref_with.
+    - now apply ref_cached.
+    - now apply ref_call.
+    - now apply ref_template.
+    - now apply ref_comp.
+    - now apply ref_logged.
+    - now apply ref_pipe.
+    - apply ref_alloptions.
+  Qed.
+End Refinement.
+
+(** the statement in the form the property file quotes *)
+Theorem C05_refinement u fuel e o :
+  fst (fst (eval unit nc_find nc_store cfg_nc u fuel (fun _ _ => true) e o tt)) = sem u fuel e o.
+Proof. exact (proj1 (eval_refines_spec u fuel e) o). Qed.
+
+Theorem C05_refinement_validate u fuel e o :
+  fst (fst (validate unit nc_find nc_store cfg_nc u fuel (fun _ _ => true) e o tt)) = sem_valid u fuel e o.
+Proof. exact (proj2 (eval_refines_spec u fuel e) o). Qed.
+
+(** what the harness observes ([EvalRun.eval_nc]: the result with every lazily evaluated
+    iterable consumed) is the reference value consumed *)
+Definition consumed (r : res value) : res value :=
+  match r with
+  | Ok v => match deep_err v with Some c => Err c true | None => Ok v end
+  | Err c ee => Err c ee
+  end.
+
+Theorem C05_refinement_observed u fuel e o : fst (eval_nc u fuel e o) = consumed (sem u fuel e o).
+Proof.
+  rewrite <- C05_refinement. unfold eval_nc.
+  destruct (eval unit nc_find nc_store cfg_nc u fuel (fun _ _ => true) e o tt) as [[r s] l].
+  cbn [fst]. destruct r as [v|c ee]; [|reflexivity]. cbn [consumed]. destruct (deep_err v); reflexivity.
+Qed.
+
+(** ** The sentences of the property, about [sem] *)
+Section Sentences.
+  Variable u : N -> list value -> cres.
+  Variable fuel : nat.
+  Notation sem := (Spec.sem u fuel).
+  Notation semv := (Spec.sem_valid u fuel).
+  Ltac unf := cbn [Spec.sem Spec.sem_valid]; fold sem; fold semv.
+
+  (** switch: the branch registered under the dispatch value; otherwise, or when the dispatch
+      cannot be evaluated, the default; otherwise a failure *)
+  Lemma switch_spec disp tbl dflt o :
+    sem (ESwitch disp tbl dflt) o =
+      match sem disp o with
+      | Ok k =>
+          if hashable k then
+            match assoc_v k tbl with
+            | Some b => sem b o
+            | None => match dflt with Some d => sem d o | None => Err CSwitch true end
+            end
+          else Err CType true
+      | Err c ee =>
+          match dflt with
+          | Some d => if is_unmodelled c then Err c true else sem d o
+          | None => Err c true
+          end
+      end.
+  Proof.
+    unf. destruct (sem disp o) as [k|c ee] eqn:E.
+    - destruct (hashable k); [|reflexivity]. rewrite pick_assoc.
+      destruct (assoc_v k tbl) as [b|]; [apply sem_is_wrapped|].
+      destruct dflt; [apply sem_is_wrapped|reflexivity].
+    - destruct dflt as [d|]; [|reflexivity].
+      destruct (is_unmodelled c); [reflexivity|apply sem_is_wrapped].
+  Qed.
+
+  (** a case whose condition does not hold of [x] under [o] *)
+  Definition case_fails (o : dict) (x : value) (cr : expr * expr) : Prop :=
+    exists p b, sem (fst cr) o = Ok p /\ scall_value u p x = Ok b /\ truthy b = false.
+
+  Lemma case_first_match disp pre c r post dflt o x p b :
+    sem disp o = Ok x ->
+    Forall (case_fails o x) pre ->
+    sem c o = Ok p -> scall_value u p x = Ok b -> truthy b = true ->
+    sem (ECase disp (pre ++ (c, r) :: post) dflt) o = sem r o.
+  Proof.
+    intros Hd Hpre Hc Hb Ht. unf. rewrite Hd. cbn [rbind].
+    transitivity (as_ee (sem r o)); [f_equal|apply sem_is_wrapped].
+    induction Hpre as [|[c' r'] pre (p' & b' & Hp' & Hb' & Ht') _ IH]; cbn [app]; unf.
+    - rewrite Hc. cbn [rbind]. rewrite Hb. cbn [rbind]. now rewrite Ht.
+    - cbn [fst] in Hp'. rewrite Hp'. cbn [rbind]. rewrite Hb'. cbn [rbind]. rewrite Ht'. exact IH.
+  Qed.
+
+  Lemma case_no_match disp cases dflt o x :
+    sem disp o = Ok x -> Forall (case_fails o x) cases ->
+    sem (ECase disp cases dflt) o = match dflt with Some d => sem d o | None => Err CCase true end.
+  Proof.
+    intros Hd Hc. unf. rewrite Hd. cbn [rbind].
+    transitivity (as_ee (match dflt with Some d => sem d o | None => Err CCase true end));
+      [f_equal|destruct dflt; [apply sem_is_wrapped|reflexivity]].
+    induction Hc as [|[c' r'] cs (p' & b' & Hp' & Hb' & Ht') _ IH]; unf; [reflexivity|].
+    cbn [fst] in Hp'. rewrite Hp'. cbn [rbind]. rewrite Hb'. cbn [rbind]. rewrite Ht'. exact IH.
+  Qed.
+
+  (** a coalesce member that is passed over: it does not validate, or validates and then fails
+      (with an EvaluationError in either case) *)
+  Definition passed_over (o : dict) (m : expr) : Prop :=
+    exists c, c <> CUnmodelled /\
+      (semv m o = Err c true \/ (semv m o = Ok tt /\ sem m o = Err c true)).
+
+  Lemma coalesce_go_passed o pre rest : Forall (passed_over o) pre -> forall last,
+    exists last',
+    (fix go (ms : list expr) (last : option (cause * bool)) : res value :=
+       match ms with
+       | [] => match last with Some (c, ee) => Err c ee | None => Err CUnmodelled false end
+       | m :: ms' => rcatch (semv m o ;;> sem m o)
+                            (fun c ee => if ee then go ms' (Some (c, ee)) else Err c ee)
+       end) (pre ++ rest) last =
+    (fix go (ms : list expr) (last : option (cause * bool)) : res value :=
+       match ms with
+       | [] => match last with Some (c, ee) => Err c ee | None => Err CUnmodelled false end
+       | m :: ms' => rcatch (semv m o ;;> sem m o)
+                            (fun c ee => if ee then go ms' (Some (c, ee)) else Err c ee)
+       end) rest last' /\ (pre <> [] -> exists c, last' = Some (c, true)) /\ (pre = [] -> last' = last).
+  Proof.
+    induction 1 as [|m pre (c & Hc & H) Hpre IH]; intros last.
+    - exists last. split; [reflexivity|split; [intros H; now destruct H|reflexivity]].
+    - destruct (IH (Some (c, true))) as (last' & E & Hne & Hnil).
+      exists last'. split; [|split; [|discriminate]].
+      + cbn [app]. destruct H as [H|[H1 H2]].
+        * rewrite H. cbn [rbind]. destruct c; try congruence; exact E.
+        * rewrite H1, H2. cbn [rbind]. destruct c; try congruence; exact E.
+      + intros _. destruct pre as [|m' pre']; [rewrite Hnil by reflexivity; eauto|].
+        apply Hne. discriminate.
+  Qed.
+
+  Lemma coalesce_first_evaluable pre m post o v :
+    Forall (passed_over o) pre -> semv m o = Ok tt -> sem m o = Ok v ->
+    sem (ECoalesce (pre ++ m :: post)) o = Ok v.
+  Proof.
+    intros Hpre Hv He. unf.
+    destruct (coalesce_go_passed o pre (m :: post) Hpre None) as (last' & E & _ & _).
+    rewrite E. rewrite Hv, He. reflexivity.
+  Qed.
+
+  Lemma coalesce_none_evaluable ms o :
+    Forall (passed_over o) ms -> exists c, sem (ECoalesce ms) o = Err c true.
+  Proof.
+    intros H. unf.
+    destruct (coalesce_go_passed o ms [] H None) as (last' & E & Hne & Hnil).
+    rewrite app_nil_r in E. rewrite E.
+    destruct ms as [|m ms']; [rewrite Hnil by reflexivity; eexists; reflexivity|].
+    destruct Hne as [c ->]; [discriminate|]. eexists; reflexivity.
+  Qed.
+End Sentences.
